@@ -1,9 +1,9 @@
 ENGINES = [
-    dict(name="pyvc", path="pyvc/", serves_properties=["C17", "C14"],
+    dict(name="pyvc", path="pyvc/", serves_properties=["C17", "C14", "C02", "C01", "C10", "C11"],
          kind_free_text="E1: AST -> verification-condition generator / symbolic executor over the real source text of /repo, sidecar contracts, z3 (cvc5 fall-back)"),
-    dict(name="tabinv", path="tabinv/", serves_properties=[],
+    dict(name="tabinv", path="tabinv/", serves_properties=["C01", "C10", "C11"],
          kind_free_text="E2: exact-arithmetic ground obligations on the coefficient tables dumped from the imported classes"),
-    dict(name="monitor", path="monitor/", serves_properties=["C17"],
+    dict(name="monitor", path="monitor/", serves_properties=["C17", "C14", "C01", "C02", "C10", "C11"],
          kind_free_text="E3: bounded native stand-ins and replay of counter-models under /venv/bin/python (never counted as proved)"),
 ]
 NOTES = ("Contract-based deductive verification of the real code; see DESIGN.md. Exit codes: 0 held, 1 VIOLATION, 2 undecided, 3 checker error. "
@@ -26,4 +26,31 @@ CHECKS["C14"] = dict(level="proof", engine="pyvc",
          "to an arbitrary real in the contract proofs; 'within tol' is proved for the convergence exit, on the 64-iteration cap exit only 'sign change between the returned end points'; A4 lifting",
     technique="contracts + loop invariants + relational lock-step on the real AST, VCs discharged by z3 (NRA + UF)",
     design_ref="DESIGN.md section 4 C14")
+CHECKS["C01"] = dict(level="proof", engine="tabinv+pyvc",
+    text="All rooted-tree order conditions up to the declared order of the 29 Runge-Kutta tables (RadauIIA19: simplifying assumptions B(19), C(10), D(9) + trees to order 9), row sums, "
+         "estimator consistency with the weights probed from the real get_error_estimate, P-series conditions of the 3 splitting tables, and the Aitken-Neville moment conditions on the weights "
+         "the real adaptive_richardson returns (extracted by symbolic execution for 2..5 levels and every shipped base order; subdiv_step proved to be the chained composition). "
+         "Exact rational arithmetic; RK14(12) orders 13-14 (49 000 trees) are in the thorough tier. The declared orders of the two high-order splitting schemes are a recorded known finding (F3).",
+    note="A8 (Butcher's order theorem, P-series, simplifying-assumption theorem, Aitken-Neville) is cited, not mechanised; rounding slack derived, margins reported; A1",
+    technique="data-structure invariant of the coefficient tables by exact arithmetic + weights extracted from the real code by symbolic execution",
+    design_ref="DESIGN.md section 4 C01")
+CHECKS["C02"] = dict(level="proof", engine="pyvc",
+    text="compute_step, RungeKuttaIntegrator.step, algebraic_system and ExplicitSymplecticIntegrator.step are executed symbolically (uninterpreted right-hand side, symbolic t, y, h; LinComb domain) for "
+         "all 32 shipped tables and proved equal to an independently written specification of the Runge-Kutta / drift-kick formulas, incl. stale-buffer frames and FSAL branches; "
+         "RungeKuttaIntegrator.__call__ is executed over its control skeleton: an implicit step whose solve did not converge is never returned.",
+    note="the nonlinear solve itself is external (A6, assumed contract; native stage residuals are a bounded clause); floats as reals (A1); shapes/dtypes not modelled",
+    technique="symbolic execution of the real functions in a free-vector-space domain, exact polynomial identity; control-flow post-condition by z3",
+    design_ref="DESIGN.md section 4 C02")
+CHECKS["C10"] = dict(level="proof", engine="tabinv+pyvc",
+    text="M = 0 and symmetry of the 3 symplectic-flagged Runge-Kutta tables; pure-row / palindromic / sum-one invariants of the 3 splitting tables; the real ExplicitSymplecticIntegrator.step proved to be a composition "
+         "of shears and step(h) followed by step(-h) proved to be the identity for every separable right-hand side (shipped coefficients, autonomous; symbolic palindromic coefficients, time-dependent forces); unconverged implicit steps never returned.",
+    note="A8 (M=0 => symplectic, shears symplectic, symmetric => reversible for RK) cited; bounded energy error is a corollary, not checked; A1; mask construction and float behaviour are bounded native clauses",
+    technique="exact table invariants + relational (two-run) symbolic execution in the LinComb domain",
+    design_ref="DESIGN.md section 4 C10")
+CHECKS["C11"] = dict(level="proof", engine="tabinv+pyvc",
+    text="For all 16 implicit tables the stability function is computed exactly; |R(iy)| <= 1 for every real y (exact Sturm sequence, z3 nlsat as second opinion), all poles in the open right half-plane "
+         "(exact Routh-Hurwitz), deg N <= deg D; the code link: algebraic_system is the defining stage system, the increment is h*sum b_i K_i, unconverged solves are never returned.",
+    note="maximum principle (A8) cited; 2^-40 rounding allowance on the imaginary axis; nonlinear solve external (A6): native agreement with R(z) is a bounded clause",
+    technique="exact polynomial root counting (Sturm, Routh-Hurwitz) on tables dumped from the imported classes + symbolic execution of the stage system",
+    design_ref="DESIGN.md section 4 C11")
 NOT_APPLICABLE = {}
